@@ -120,6 +120,15 @@ def check(prop, tier, spec):
                         samples.append({"script": s["id"], "steps": [
                             {k: v_ for k, v_ in st.items() if v_ not in ("", [], 0)} for st in s["steps"]][:14],
                             "events": [[e["t"], e["e"], e["c"] or e["p"], e["n"]] for e in list(events_of(r))[:12]]})
+        pure_res = None
+        if spec.get("pure"):
+            from . import pure as P
+            ubin = P.build(work)
+            pure_res = P.run_families(work, ubin, spec["pure"], tier)
+            for c in pure_res["mismatches"][:10]:
+                rp = C.save_replay(prop, "%s-%s" % (c.get("f", "case"), P.case_key(c)[:10]),
+                                   {"property": prop, "kind": "pure", "case": c})
+                violations.append(("pure:" + c.get("f", "?"), "recorded call disagrees with the functional specification: " + P.short(c, 300), rp))
         cov = {
             "states": mcstats["distinct"] + tstats["distinct"],
             "transitions": mcstats["generated"] + tstats["generated"],
@@ -134,6 +143,15 @@ def check(prop, tier, spec):
             "known_findings_matched": len(known_lines),
             "exhaustive": False,
         }
+        if pure_res:
+            cov["states"] += pure_res["states"]
+            cov["transitions"] += pure_res["states"]
+            cov["traces_validated_against_impl"] += pure_res["cases"] - len(pure_res["mismatches"])
+            cov["evaluations"] += pure_res["cases"]
+            cov["distinct_nontrivial"] += pure_res["distinct"]
+            cov["unit_level"] = {"families": spec["pure"], "recorded_calls": pure_res["cases"],
+                                 "distinct_inputs": pure_res["distinct"], "mismatches": len(pure_res["mismatches"]),
+                                 "samples": pure_res["samples"][:2]}
         C.write_evidence(prop, tier, cov, time.time() - t0, len(violations), spec["assumptions"])
         for f in findings:
             if f["property"] == prop:
@@ -156,6 +174,9 @@ def check(prop, tier, spec):
 def replay(prop, path, spec, repeats=5):
     with open(path) as f:
         rp = json.load(f)
+    if rp.get("kind") == "pure":
+        from . import pure as P
+        return P.replay(prop, path)
     s = rp["script"]
     work = C.Work(prop + ".replay")
     try:
